@@ -18,6 +18,13 @@ from ..core import Check, Problem, register
 
 ACTS = ("none", "sigmoid", "tanh", "leaky_relu", "relu")
 ALPHAS = ("0", "3/10", "1", "5/2")
+
+
+def step_alpha(case, si):
+    """alpha in force during measured step `si`: `alphas` (set on the estimator before that step, the documented way of
+    scheduling alpha — examples/plot_adversarial_fine_tuning.py, set_params) or the constructor's `alpha`"""
+    al = case.get("alphas") or []
+    return al[si] if si < len(al) else case["alpha"]
 LRS = ("1/2", "1/4", "1/8", "1/16", "1/10")
 # Tolerances (review R2, measured on the unchanged tree, VERIF_SEED 0..2, 1500 cases = 6782 predictor / 6858 adversary
 # tensors + 2432 tensors of whole fits): the largest relative part any tensor needed on top of 4 ulp(W)/lr was 1.66e-7 of
@@ -404,6 +411,9 @@ class CHECK(Check):
                         case["steps"].append(rows)
                         break
             if valid(case):
+                if rng.random() < 0.3:
+                    # alpha changed between steps on the SAME engine (seeded C16c: hyper-parameters cached at engine construction)
+                    case["alphas"] = [rng.choice(ALPHAS) for _ in case["steps"]]
                 yield case
 
     def _shrink_fit(self, case):
@@ -426,6 +436,8 @@ class CHECK(Check):
         def emit(c):
             if valid(c) and c != case:
                 yield c
+        if case.get("alphas"):
+            yield from emit({k: v for k, v in case.items() if k != "alphas"})
         # fewer measured steps / rows
         if len(case["steps"]) > 1:
             for i in range(len(case["steps"])):
@@ -583,7 +595,9 @@ class CHECK(Check):
             est.partial_fit(X, box(yl, allrows), sensitive_features=box(sl, allrows))
         out = {"steps": []}
         first = not case["warm"]
-        for rows in case["steps"]:
+        for si, rows in enumerate(case["steps"]):
+            if case.get("alphas"):
+                est.alpha = float(F(step_alpha(case, si)))
             if first:
                 # the very first call sets the estimator up: it must see every class -> measured on the whole pool
                 rows = allrows
@@ -656,14 +670,15 @@ class CHECK(Check):
         ls = []
         if "steps" not in o:
             return ls
-        for st in o["steps"]:
+        for si, st in enumerate(o["steps"]):
+            al = step_alpha(case, si)
             for t in st["pred"]:
                 if not self._finite(t):
                     continue
                 W, A, B = (self._mat(t["shape"], t[k]) for k in ("W0", "a", "b"))
-                ls.append(f"adv.step torch {W} {A} {B} {case['alpha']} {case['lr_p']}")
-                ls.append(f"adv.grad ref {A} {B} {case['alpha']}")
-                ls.append(f"adv.grad suminner {A} {B} {case['alpha']}")
+                ls.append(f"adv.step torch {W} {A} {B} {al} {case['lr_p']}")
+                ls.append(f"adv.grad ref {A} {B} {al}")
+                ls.append(f"adv.grad suminner {A} {B} {al}")
             for t in st["adv"]:
                 if any(v == "nan" for k in ("U0", "u") for v in t[k]):
                     continue
@@ -681,6 +696,7 @@ class CHECK(Check):
         alpha, lr_p, lr_a = F(case["alpha"]), F(case["lr_p"]), F(case["lr_a"])
         k = 0
         for si, st in enumerate(o["steps"]):
+            alpha = F(step_alpha(case, si))
             for ti, t in enumerate(st["pred"]):
                 where = f"step {si} predictor tensor {ti} shape {t['shape']}"
                 if not self._finite(t):
@@ -906,6 +922,7 @@ class CHECK(Check):
         tags = [f"y={case['ykind']}", f"sf={case['skind']}", case["constraint"], f"alpha={case['alpha']}",
                 f"mode={case['mode']}", f"opt={case['opt']}", f"container={case['container']}",
                 f"pred_hidden={len(case['pred'])}", f"adv_hidden={len(case['adv'])}", f"warm={case['warm']}",
+                "alpha_rescheduled" if case.get("alphas") else "alpha_constant",
                 f"ylabels={case['ystyle']}" if case["ykind"] != "continuous" else "ylabels=float"]
         nontriv = False
         if "steps" in o:
